@@ -317,3 +317,130 @@ Example forced_in_caller_env : eval_program 40 caller_env_prog = mkOutcome (Done
 Proof. exact RefSemLazyProofs.caller_env_prog_outcome. Qed.
 Example mixed_strict_lazy : eval_program 40 mixed_prog = mkOutcome (Done (SvInt 4)) [[SvInt 1]; [SvInt 3]].
 Proof. exact RefSemLazyProofs.mixed_prog_outcome. Qed.
+
+(* ---- 9. the self tail call route (generator.go:GenerateCallBySymbol, GenerateCallArgsForFunction,
+        vm.go:PushLazyArgInstr), modelled apart from the evaluator: tail_prep_args / self_tail_call /
+        call_by_symbol.  When the function known under the name is the function being run, the
+        compile-time route hands the body exactly what the ordinary call route
+        (CallExprInstr -> PrepareCallExprArgs) would: same values, same cells, same store.
+        strict_cc = the strict arguments compiled as part of the enclosing unit. ---- *)
+
+Theorem self_tail_args_eq_call_args : forall ev env es flags s,
+  strict_cc flags es = true ->
+  tail_prep_args ev env flags es s = prep_args ev env flags es s.
+Proof. exact RefSemLazyProofs.tail_prep_args_eq. Qed.
+Print Assumptions self_tail_args_eq_call_args.
+
+Theorem self_tail_route_is_call_route : forall ev ap env x fv args s,
+  ev env (EVar x) s = (Done fv, s) ->
+  (exists nm ps rest body cenv, fv = VClos nm ps rest body cenv) ->
+  strict_cc (lazy_flags fv) args = true ->
+  call_by_symbol ev ap env x fv fv args s = call_expr ev ap env (EVar x) args s.
+Proof. exact RefSemLazyProofs.call_by_symbol_is_call_route. Qed.
+Print Assumptions self_tail_route_is_call_route.
+
+(* the finding tail-known-fn in the model of the route: known <> self hands a strict formal a thunk *)
+Example self_tail_known_mismatch_hands_strict_formal_a_thunk :
+  let known := VClos (Some 1001) [(1002, true)] None [EInt 0] [O] in
+  let self := VClos (Some 1001) [(1003, false)] None [EVar 1003] [O] in
+  fst (self_tail_call (eval 10) (apply 10) [O] known self [pcall PTrace [EInt 1]] (init_store 0))
+  = Done (VThunk 0).
+Proof. exact RefSemLazyProofs.self_tail_known_mismatch. Qed.
+
+(* ---- 10. a lazy formal passed on, (g #x) or the self tail call (f #x ..): the symbol is wrapped
+        again.  rewrap_chain s [ck; ..; c1] v0: cell ci holds (a variable xi, a chain envi), not yet
+        forced, and the lexical look-up of xi gives the thunk c(i-1) (v0 for c1), cells distinct.
+        For ANY number k of re-wrappings: k nested forces give back v0, the core store (frames,
+        arrays, TRACE, failure counter) is unchanged -- nothing of the original argument was
+        evaluated -- and every cell outside the chain is as it was; the original argument is
+        then evaluated by its own force, in ITS captured chain (force_in_caller_env). ---- *)
+
+Theorem force_through_rewrapped : forall n cs s v0,
+  rewrap_chain s cs v0 ->
+  exists s', force_n (S (S n)) (length cs) (chain_head cs v0) s = (Done v0, s') /\
+             core s' = core s /\
+             (forall c, ~ In c cs -> nth_error (thunks s') c = nth_error (thunks s) c).
+Proof. exact RefSemLazyProofs.force_through_rewrapped. Qed.
+Print Assumptions force_through_rewrapped.
+
+Theorem passed_on_argument_forced_in_original_env : forall n m cs s c0 e env0,
+  rewrap_chain s cs (VThunk c0) -> ~ In c0 cs ->
+  nth_error (thunks s) c0 = Some (mkThunk (TSrc e env0) None) -> cc [] e = true ->
+  exists s', force_n (S (S n)) (length cs) (chain_head cs (VThunk c0)) s = (Done (VThunk c0), s') /\
+             core s' = core s /\
+             forall r s1, eval m env0 e (started c0 s') = (r, s1) ->
+               apply (S m) (VPrim PForce) [VThunk c0] s' =
+               match r with Done v => (Done v, finished c0 v s1) | _ => (r, s1) end.
+Proof. exact RefSemLazyProofs.passed_on_argument_forced_in_original_env. Qed.
+Print Assumptions passed_on_argument_forced_in_original_env.
+
+Example formal_passed_on_twice_three_forces :
+  eval_program 60 (pass_on_prog 3) = mkOutcome (Done (SvPair (SvSym 1002) (SvPair (SvInt 6) SvNil))) [[SvInt 6]].
+Proof. exact RefSemLazyProofs.pass_on_prog_three_forces. Qed.
+Example formal_passed_on_twice_one_force_is_a_thunk :
+  eval_program 60 (pass_on_prog 1) = mkOutcome (Done (SvPair (SvSym 1002) (SvPair SvThunk SvNil))) [].
+Proof. exact RefSemLazyProofs.pass_on_prog_one_force. Qed.
+
+(* ---- 11. a bare variable: only the frames of the captured chain matter (whoever forces, from
+        whatever call chain, with whatever other frames), and the innermost binding of the chain
+        wins over an outer / global one of the same name ---- *)
+
+Theorem force_variable_ignores_dynamic_context : forall n c s s' x env,
+  nth_error (thunks s) c = Some (mkThunk (TSrc (EVar x) env) None) ->
+  nth_error (thunks s') c = Some (mkThunk (TSrc (EVar x) env) None) ->
+  (forall f, In f env -> nth_error (frames (core s)) f = nth_error (frames (core s')) f) ->
+  fst (apply (S (S n)) (VPrim PForce) [VThunk c] s) = fst (apply (S (S n)) (VPrim PForce) [VThunk c] s').
+Proof. exact RefSemLazyProofs.force_variable_ignores_dynamic_context. Qed.
+Print Assumptions force_variable_ignores_dynamic_context.
+
+Theorem force_variable_innermost_binding : forall n c s x f env fr v,
+  nth_error (thunks s) c = Some (mkThunk (TSrc (EVar x) (f :: env)) None) ->
+  nth_error (frames (core s)) f = Some fr -> assoc x fr = Some v ->
+  fst (apply (S (S n)) (VPrim PForce) [VThunk c] s) = Done v.
+Proof. exact RefSemLazyProofs.force_variable_innermost_binding. Qed.
+Print Assumptions force_variable_innermost_binding.
+
+Example global_not_the_formal_of_the_callers_caller :
+  eval_program 40 lexical_var_prog = mkOutcome (Done (SvInt 7)) [].
+Proof. exact RefSemLazyProofs.lexical_var_prog_outcome. Qed.
+
+(* ---- 12. the source survives: substitute after ANY evaluation, in particular after forces of
+        the same cell (successful or failed), still returns the source expression as data ---- *)
+
+Theorem substitute_after_evaluation : forall n k c s t e env d env0 e0 r s1,
+  nth_error (thunks s) c = Some t -> t_src t = TSrc e env -> expr_datum e = Some d ->
+  eval n env0 e0 s = (r, s1) ->
+  apply (S k) (VPrim PSubst) [VThunk c] s1 = (Done d, touch c s1).
+Proof. exact RefSemLazyProofs.substitute_after_evaluation. Qed.
+Print Assumptions substitute_after_evaluation.
+
+Theorem substitute_after_force : forall n k c s t e env d r s1,
+  nth_error (thunks s) c = Some t -> t_src t = TSrc e env -> expr_datum e = Some d ->
+  apply n (VPrim PForce) [VThunk c] s = (r, s1) ->
+  apply (S k) (VPrim PSubst) [VThunk c] s1 = (Done d, touch c s1).
+Proof. exact RefSemLazyProofs.substitute_after_force. Qed.
+Print Assumptions substitute_after_force.
+
+(* ---- 13. conservativity at the call mechanism: the evaluator with lazy formals differs from the
+        evaluator without (RefSem.v) in prep_args, wrap_args and the builtins force / substitute only.
+        For a function WITHOUT lazy formals these are the plain mechanism: every argument is a
+        compile unit of its own evaluated left to right (strict_unit ev = cc check + ev), apply / map
+        hand the values over as they are, and the call mechanism allocates no cell. ---- *)
+
+Theorem strict_function_call_is_plain : forall ev env es flags s,
+  forallb negb flags = true ->
+  prep_args ev env flags es s = ev_list (strict_unit ev) env es s.
+Proof. exact RefSemLazyProofs.strict_function_call_is_plain. Qed.
+Print Assumptions strict_function_call_is_plain.
+
+Theorem strict_function_apply_is_plain : forall ap f vs s,
+  forallb negb (lazy_flags f) = true -> ap_values ap f vs s = ap f vs s.
+Proof. exact RefSemLazyProofs.strict_function_apply_is_plain. Qed.
+Print Assumptions strict_function_apply_is_plain.
+
+Theorem strict_function_call_allocates_nothing : forall ev env es flags s,
+  forallb negb flags = true ->
+  (forall env e s r s1, ev env e s = (r, s1) -> thunks s1 = thunks s) ->
+  forall r s1, prep_args ev env flags es s = (r, s1) -> thunks s1 = thunks s.
+Proof. exact RefSemLazyProofs.strict_function_call_allocates_nothing. Qed.
+Print Assumptions strict_function_call_allocates_nothing.
